@@ -34,8 +34,8 @@ func init() {
 		New:  "\t\tdecl.children = append(decl.children, childDecl)\n\t}\n\tsort.Slice(decl.children, func(i, j int) bool { return decl.children[i].fqdn < decl.children[j].fqdn })\n\treturn nil\n}\n\nfunc (ctx *validateCtx) validateCustomFunc",
 		Rule: "R02a", Substr: "validateArray", Why: "array elements reordered lexicographically (elem[10] before elem[2])"})
 	control(Control{ID: "c02-unsorted-object-children", Prop: "C02", File: "extensions/omniv21/transform/validate.go",
-		Old: "\tif len(decl.children) > 0 {\n\t\tsort.Slice(decl.children, func(i, j int) bool { return decl.children[i].fqdn < decl.children[j].fqdn })\n\t}\n\treturn nil\n}\n\nfunc (ctx *validateCtx) validateArray",
-		New: "\tif len(decl.children) > 0 {\n\t\t_ = sort.SliceIsSorted(decl.children, func(i, j int) bool { return decl.children[i].fqdn < decl.children[j].fqdn })\n\t}\n\treturn nil\n}\n\nfunc (ctx *validateCtx) validateArray",
+		Old:  "\tif len(decl.children) > 0 {\n\t\tsort.Slice(decl.children, func(i, j int) bool { return decl.children[i].fqdn < decl.children[j].fqdn })\n\t}\n\treturn nil\n}\n\nfunc (ctx *validateCtx) validateArray",
+		New:  "\tif len(decl.children) > 0 {\n\t\t_ = sort.SliceIsSorted(decl.children, func(i, j int) bool { return decl.children[i].fqdn < decl.children[j].fqdn })\n\t}\n\treturn nil\n}\n\nfunc (ctx *validateCtx) validateArray",
 		Rule: "R02a", Substr: "validateObject", Why: "object members evaluated in map iteration order (which failing member is reported becomes random)"})
 	control(Control{ID: "c02-raw-return", Prop: "C02", File: "extensions/omniv21/transform/parse.go",
 		Old: "\treturn normalizeAndReturnValue(decl, n.InnerText())", New: "\treturn n.InnerText(), nil",
